@@ -129,7 +129,7 @@ def c13(tier, seed):
 
 
 def c14(tier, seed):
-    return combine([dsl_family('roundtrip', 1), dsl_family('json', 1)], ['nontrivial', 'json_spellings'],
+    return combine([dsl_family('roundtrip', 1), dsl_family('json', 1), cli_family(tier)], ['nontrivial', 'json_spellings'],
                    'every generated transaction written by the real DSL writer (byte-compared with the specification\'s Write), '
                    'parsed back, re-written (idempotence), and round-tripped through the tool\'s JSON; every documented JSON input spelling (money as string / number / object, action and ticker case, zero clause omitted or spelt, CAP_RETURN alias) read by serde; TLC checks RoundTrips and '
                    'Idempotent on the specification; non-trivial = transactions with money fields',
